@@ -303,3 +303,15 @@ Example C19_example :
   remove_gate C19_ex "g1" = Err GateHasUsersError /\
   remove_gate C19_ex "q" = Err CircuitValidationError.
 Proof. exact C19_ex_ok. Qed.
+
+(* ---- replace_subcircuit as the source says it now (translator T10) agrees with the model these theorems are about
+        (proved in Proofs/CircuitAlgosGen7.v, also stated under C02); re-stated here so that an edit of the method
+        breaks a proof obligation of THIS property. ---- *)
+Require Cirbo.Proofs.CircuitAlgosGen Cirbo.Proofs.CircuitAlgosGen7 Cirbo.Proofs.CircuitAlgosGenSum.
+Theorem C19_replace_subcircuit_regenerated : forall c sub imap omap f rest,
+  WF c -> CircuitAlgosGenSum.keys_ok sub -> NoDup (dkeys imap) -> NoDup (dkeys omap) ->
+  CircuitAlgosGen7.rs_agree
+    (Cirbo.Generated.CircuitAlgos.gen_replace_subcircuit CircuitAlgosGen.size_fuel CircuitAlgosGen.size_fuel
+       CircuitAlgosGen7.all_gates_fuel CircuitAlgosGen.size_fuel c sub imap omap (f :: rest))
+    (replace_subcircuit c sub imap omap f).
+Proof. exact CircuitAlgosGenSum.replace_subcircuit_regenerated. Qed.
